@@ -38,6 +38,7 @@ type scenario struct {
 	name    string
 	frames  []fspec
 	reverse bool // B sends to A
+	seg     int  // > 0: the transport hands at most seg bytes to one read
 	// build produces the byte strings fed to the receiver from the held link frames
 	// (and the held frames of the reverse direction, if any).
 	build  func(held [][]byte, rev [][]byte) [][]byte
@@ -80,6 +81,7 @@ func run(t *testing.T, sc scenario) (res result) {
 		a, b := mkNode("A", 0), mkNode("B", 1)
 		wa, wb := kit.WatchPanics(a), kit.WatchPanics(b)
 		w := kit.NewWire(a, b)
+		w.EA.MaxRead, w.EB.MaxRead = sc.seg, sc.seg
 		w.Start()
 		w.Pump(10)
 		if w.LinkA == nil || w.LinkB == nil {
@@ -281,14 +283,19 @@ func TestC05(t *testing.T) {
 	for _, rv := range []bool{false, true} {
 		for _, mt := range types {
 			for _, sz := range sizes {
-				if !mine() {
-					continue
+				for _, seg := range []int{0, 1, 7, 1500} {
+					if !mine() {
+						continue
+					}
+					fs := []fspec{{mt, sz}, {frame.SessionData, 33}}
+					sc := scenario{name: fmt.Sprintf("honest@type%d-size%d-rev%v", mt, sz, rv), frames: fs, reverse: rv, expect: 2, seg: seg,
+						build: func(h, r [][]byte) [][]byte { return h }}
+					sc.name = "honest"
+					if seg > 0 {
+						sc.name = fmt.Sprintf("honest-segmented-transport@%d-byte-reads-type%d-size%d-rev%v", seg, mt, sz, rv)
+					}
+					judge(sc, run(t, sc))
 				}
-				fs := []fspec{{mt, sz}, {frame.SessionData, 33}}
-				sc := scenario{name: fmt.Sprintf("honest@type%d-size%d-rev%v", mt, sz, rv), frames: fs, reverse: rv, expect: 2,
-					build: func(h, r [][]byte) [][]byte { return h }}
-				sc.name = "honest"
-				judge(sc, run(t, sc))
 			}
 		}
 	}
